@@ -161,6 +161,9 @@ def _samples(w: _World):
     out.append(("vertex integral, linear form", "vertex", "vertex", (3,), [("f0", [(E, None)])], ((0, 1, 2),), False))
     out.append(("cell, functional", "cell", "cell", (), [("f0", [])], (), False))
     out.append(("cell, diagonal of P1 x P1", "cell", "cell", (3,), [("f0", [(P1, None), (P1, None)]), ("f1", [(D0, None), (D0, None)])], ((0, 1, 2), (0, 1, 2)), True))
+    # part="diagonal" applies to bilinear forms only: other ranks compiled with it must come out as without it
+    out.append(("cell, linear form compiled with part=diagonal", "cell", "cell", (3,), [("f0", [(P1, None)]), ("f1", [(D0, None)])], ((0, 1, 2),), True))
+    out.append(("cell, functional compiled with part=diagonal", "cell", "cell", (), [("f0", [])], (), True))
     return out
 
 
